@@ -91,7 +91,20 @@ static void arena_unmap(uintptr_t base, size_t len) {
 	PS.unmaps++;
 	if(g_mutex_held) note("C05", "policy:unmap-under-lock", "Policy::unmap called while a pool mutex is held");
 	auto it = PS.regions.find(base);
-	if(it == PS.regions.end()) { note("C03", "protocol:unmap-unknown-base", "unmap() of a base that is not a currently mapped region"); return; }
+	if(it == PS.regions.end()) {
+		note("C03", "protocol:unmap-unknown-base", "unmap() of a base that is not a currently mapped region");
+		// a real munmap() would give the range back all the same: every region it overlaps is gone for the pool (C01: live
+		// blocks must lie in memory the pool "has not given back"), and its memory becomes inaccessible
+		for(auto r = PS.regions.begin(); r != PS.regions.end();) {
+			if(base < r->second.base + r->second.len && r->second.base < base + len) {
+				AUNPOISON((void *)r->second.base, r->second.len);
+				if(PS.poisoning) memset(g_shadow + (r->second.base - (uintptr_t)arena_base), 0, r->second.len);
+				APOISON((void *)r->second.base, r->second.len);
+				r = PS.regions.erase(r);
+			} else ++r;
+		}
+		return;
+	}
 	if(it->second.len != len) note("C03", "protocol:unmap-wrong-length", "unmap(base, " + std::to_string(len) + ") but map was asked for " + std::to_string(it->second.len));
 	PS.returned.push_back(it->second);
 	size_t off = base - (uintptr_t)arena_base;
@@ -176,7 +189,7 @@ struct SlabHarness : HarnessBase {
 	std::map<uintptr_t, long> region_pages;     // region base -> pages credited
 
 	SlabHarness(int L_, size_t skew_, int fail_budget_, std::vector<size_t> sizes_, bool reentrant_ = false, bool facade_ = false) : L(L_), skew(skew_), fail_budget(fail_budget_), sizes(std::move(sizes_)) {
-		reentrant = reentrant_; facade = facade_;
+		reentrant = reentrant_; facade = facade_; fail_second = fail_budget_ > 0;
 		if(!arena_base) {
 			arena_base = (unsigned char *)mmap(nullptr, ARENA_SIZE + (8u << 20) + SLACK, PROT_READ | PROT_WRITE, MAP_PRIVATE | MAP_ANONYMOUS | MAP_NORESERVE, -1, 0);
 			arena_base = (unsigned char *)(((uintptr_t)arena_base + (4u << 20) - 1) & ~(uintptr_t)((4u << 20) - 1));
@@ -227,7 +240,7 @@ struct SlabHarness : HarnessBase {
 		for(int guard = 0; guard < 64; guard++) {
 			fresh_world();
 			asan_close(); void *a = pool().allocate(s); pool().allocate(s); asan_open();
-			if(PS.maps >= 2) break;               // each allocation needed its own region: large
+			if(PS.regions.size() >= 2) break;     // each allocation needed its own region: large (regions held, not map() calls: an implementation may map transiently)
 			size_t gs = pool().get_size(a);
 			classes.push_back(gs); max_small = gs;
 			s = gs + 1;
@@ -235,7 +248,7 @@ struct SlabHarness : HarnessBase {
 		for(size_t c : classes) {
 			fresh_world();
 			size_t n = 0;
-			while(PS.maps < 2) { asan_close(); pool().allocate(c); asan_open(); n++; if(n > (1u << 20)) abort(); }
+			while(PS.regions.size() < 2) { asan_close(); pool().allocate(c); asan_open(); n++; if(n > (1u << 20)) abort(); }
 			per_slab[c] = n - 1;
 		}
 		fresh_world();
@@ -243,7 +256,8 @@ struct SlabHarness : HarnessBase {
 	}
 	void reset() { fresh_world(); }
 
-	enum { ALLOC, FREE, DEALLOC, REALLOC, REALLOC_NULL, ALLOC_FAIL, REALLOC_FAIL, REALLOC_NULL_FAIL, ALLOC_RF, ALLOC_FAIL_RF };
+	enum { ALLOC, FREE, DEALLOC, REALLOC, REALLOC_NULL, ALLOC_FAIL, REALLOC_FAIL, REALLOC_NULL_FAIL, ALLOC_RF, ALLOC_FAIL_RF, ALLOC_FAIL2, REALLOC_FAIL2 };
+	bool fail_second = false;   // also fail the second map() call of an operation (an implementation may map more than once per call)
 	bool reentrant = false;   // alphabet includes allocations during whose map() call the policy frees a live block of the pool
 	static uint32_t mk(uint32_t k, uint32_t i, uint32_t si) { return k | i << 8 | si << 16; }
 	void ops(std::vector<uint32_t> &out) {
@@ -252,6 +266,7 @@ struct SlabHarness : HarnessBase {
 				out.push_back(mk(ALLOC, 0, si));
 				if(si == 1) out.push_back(mk(REALLOC_NULL, 0, si));
 				if(fails_used < fail_budget) out.push_back(mk(ALLOC_FAIL, 0, si));
+				if(fail_second && fails_used < fail_budget) out.push_back(mk(ALLOC_FAIL2, 0, si));
 			}
 			// the policy frees live block i from inside map() (with map succeeding, and with map failing)
 			if(reentrant && (int)live.size() <= L) for(uint32_t i = 0; i < live.size(); i++) {
@@ -264,13 +279,14 @@ struct SlabHarness : HarnessBase {
 			for(uint32_t si = 0; si < sizes.size(); si++) {
 				out.push_back(mk(REALLOC, i, si));
 				if(fails_used < fail_budget && sizes[si] > live[i].size) out.push_back(mk(REALLOC_FAIL, i, si));
+				if(fail_second && fails_used < fail_budget && sizes[si] > live[i].size) out.push_back(mk(REALLOC_FAIL2, i, si));
 			}
 		}
 	}
-	std::string show_class(uint32_t op) { static const char *nm[] = {"allocate", "free", "deallocate", "realloc", "realloc(null)", "allocate[map fails]", "realloc[map fails]", "realloc(null)[map fails]", "allocate[policy frees a block inside map]", "allocate[policy frees a block inside map, map fails]"}; return std::string("slab.") + nm[op & 0xff]; }
+	std::string show_class(uint32_t op) { static const char *nm[] = {"allocate", "free", "deallocate", "realloc", "realloc(null)", "allocate[map fails]", "realloc[map fails]", "realloc(null)[map fails]", "allocate[policy frees a block inside map]", "allocate[policy frees a block inside map, map fails]", "allocate[second map fails]", "realloc[second map fails]"}; return std::string("slab.") + nm[op & 0xff]; }
 	std::string show(uint32_t op) {
 		char b[96]; uint32_t k = op & 0xff, i = (op >> 8) & 0xff, si = op >> 16;
-		if(k == ALLOC || k == REALLOC_NULL || k == ALLOC_FAIL) snprintf(b, sizeof b, "%s(%zu)", show_class(op).c_str(), sizes[si]);
+		if(k == ALLOC || k == REALLOC_NULL || k == ALLOC_FAIL || k == ALLOC_FAIL2) snprintf(b, sizeof b, "%s(%zu)", show_class(op).c_str(), sizes[si]);
 		else if(k == ALLOC_RF || k == ALLOC_FAIL_RF) snprintf(b, sizeof b, "%s(%zu; frees b%u)", show_class(op).c_str(), sizes[si], i);
 		else if(k == FREE || k == DEALLOC) snprintf(b, sizeof b, "%s(b%u)", show_class(op).c_str(), i);
 		else snprintf(b, sizeof b, "%s(b%u,%zu)", show_class(op).c_str(), i, sizes[si]);
@@ -324,13 +340,21 @@ struct SlabHarness : HarnessBase {
 		if(used > (size_t(1) << 40)) fail(P3, "pages-underflow", "numUsedPages() wrapped around");
 		long delta = (long)used - (long)used_before;
 		long returned = 0;
+		// a region that was mapped and returned again within this call is transient (e.g. an exact-size attempt that turned
+		// out misaligned, replaced by an over-reservation): the property does not forbid it and there is nothing to account
+		{
+			std::vector<Region> t2, r2;
+			for(auto &t : PS.taken) { bool transient = false; for(auto &r : PS.returned) if(r.serial == t.serial) transient = true; if(!transient) t2.push_back(t); }
+			for(auto &r : PS.returned) { bool transient = false; for(auto &t : PS.taken) if(r.serial == t.serial) transient = true; if(!transient) r2.push_back(r); }
+			PS.taken = t2; PS.returned = r2;
+		}
 		for(auto &r : PS.returned) {
 			auto it = region_pages.find(r.base);
 			if(it == region_pages.end()) fail(P3, "protocol:unmap-untracked", "unmapped a region the harness has no record of");
 			returned += it->second; region_pages.erase(it);
 			for(size_t bi = 0; bi < live.size(); bi++) if(bi != exempt) if(auto &b = live[bi]; b.p < r.base + r.len && r.base < b.p + b.size) fail(P3, "protocol:unmap-with-live-block", "a region was unmapped while a live block lies inside it");
 		}
-		if(PS.taken.size() > 1) fail(P3, "protocol:two-maps", "one call mapped more than one region");
+		if(PS.taken.size() > 1) fail(P3, "protocol:two-maps", "one call kept more than one newly mapped region");
 		if(PS.taken.size() == 1) {
 			long credited = delta + returned;
 			auto &r = PS.taken[0];
@@ -506,6 +530,8 @@ struct SlabHarness : HarnessBase {
 		case DEALLOC: do_free(i, true); break;
 		case REALLOC: do_realloc(i, sizes[si], -1); break;
 		case REALLOC_FAIL: do_realloc(i, sizes[si], 0); break;
+		case ALLOC_FAIL2: do_alloc(sizes[si], false, 1); break;
+		case REALLOC_FAIL2: do_realloc(i, sizes[si], 1); break;
 		case ALLOC_RF: do_alloc_reentrant(sizes[si], i, -1); break;
 		case ALLOC_FAIL_RF: do_alloc_reentrant(sizes[si], i, 0); break;
 		}
@@ -555,6 +581,7 @@ using CfgTinyA  = ArenaPolicy<256, 4096,   4096,    8, true,  true>;    // 3 x 1
 using CfgTinyU  = ArenaPolicy<256, 4096,   4096,    8, false, true>;    // one-argument map, misaligned bases
 using CfgTinyNP = ArenaPolicy<256, 4096,   4096,    8, true,  false>;   // no poison hooks
 using CfgSplit  = ArenaPolicy<256, 2048,   4096,    7, true,  true>;    // slab (2 KiB) < superblock (4 KiB)
+using CfgSplitU = ArenaPolicy<256, 2048,   4096,    7, false, true>;    // the same with the one-argument map: the over-reservation is slab + sb, not 2 * slab
 using CfgOdd    = ArenaPolicy<4096, 7 * 4096, 8 * 4096, 11, true, true>; // slab 7 pages, largest class 2 pages
 using CfgPageSb = ArenaPolicy<1024, 1024, 1024, 6, true, true>;         // superblock == slab == page: large blocks are superblock-aligned
 using CfgDefA   = ArenaPolicy<4096, 1 << 18, 1 << 18, 13, true, true>;   // defaults
@@ -692,6 +719,7 @@ static std::vector<Instance> instances(const std::string &tier) {
 			IN1(v.push_back(sweep_inst<CfgTinyU>("sweep-tinyU-skew256" + bs, 256, th, b));)
 			IN1(v.push_back(sweep_inst<CfgTinyNP>("sweep-tinyNP" + bs, 0, th, b));)
 			IN2(v.push_back(sweep_inst<CfgSplit>("sweep-split" + bs, 0, th, b));)
+			IN1(v.push_back(sweep_inst<CfgSplitU>("sweep-splitU-skew256" + bs, 256, th, b));)
 		}
 	}
 	if(c02) {   // "realloc frees the old block only when it moved" / "bytes of a live block change only by their owner" also across failing map() calls
@@ -736,6 +764,7 @@ static std::vector<Instance> instances(const std::string &tier) {
 	IN1(v.push_back(slab_inst<CfgTinyU>("tinyU-skew3840" + sfx, 3, 3840, F, tiny, D));)
 	IN1(v.push_back(slab_inst<CfgTinyNP>("tinyNP" + sfx, 3, 0, F, tiny, D));)
 	IN2(v.push_back(slab_inst<CfgSplit>("split" + sfx, 3, 0, F, split, D));)
+	IN1(v.push_back(slab_inst<CfgSplitU>("splitU-skew256" + sfx, 3, 256, F, split, D));)
 	IN2(v.push_back(slab_inst<CfgOdd>("odd" + sfx, 3, 0, F, odd, D - 1));)
 	IN2(v.push_back(slab_inst<CfgPageSb>("pagesb" + sfx, 3, 0, F, pagesb, D));)
 	IN3(v.push_back(slab_inst<CfgDefA>("defaultA" + sfx, 2, 0, F, def, D - 2));)
